@@ -122,6 +122,7 @@ QUICK = {"network": 2, "dirnetwork": 2, "geonetwork": 2, "interacting": 1, "resn
          "crp": 2, "jrp": 2, "jrn": 2, "climate": 2, "climatedata": 2, "visibility": 2, "surrogates": 2,
          "tsonis": 2, "hilbert": 2, "isrn": 2, "ccn": 2, "escn": 2,
          "spearman": 2, "partialcorr": 2, "mutualinfo": 2, "havlin": 2, "ctsonis": 2}
+ABA_PER_FAMILY = 12
 THOROUGH = {k: 3 for k in QUICK}
 THOROUGH["interacting"] = 2
 
@@ -157,6 +158,19 @@ def main(ctx):
                     rest.append(h)
             rng.shuffle(rest)
             hs = keep + rest[:max(0, 90 - len(keep))]
+        if ctx.tier == "quick":
+            # ... plus "there and back" histories of length 3 (a, b, a): the object returns to a setting it has
+            # had before - where a setter that remembers its last argument, or a key that cycles, would go wrong
+            import random
+            h3 = [h for h in gen_histories(ctx, fam, 3) if h[0] == h[2] and h[0][0] != h[1][0]]
+            random.Random(ctx.seed + len(fam)).shuffle(h3)
+            seen3, aba = set(), []
+            for h in h3:
+                key = (h[0][0], h[1][0])
+                if key not in seen3:
+                    seen3.add(key)
+                    aba.append(h)
+            hs = hs + aba[:ABA_PER_FAMILY]
         for k, h in enumerate(hs):
             cases.append({"case": "%s_%d" % (fam, k), "family": fam, "hist": [list(m) for m in h]})
     ctx.exhaustive = ctx.tier == "thorough"
